@@ -17,6 +17,7 @@ package main
 
 import (
 	"bytes"
+	"encoding/json"
 	"flag"
 	"fmt"
 	"go/ast"
@@ -808,6 +809,7 @@ func ident(s string) string {
 func main() {
 	repo := flag.String("repo", "/repo", "repository root")
 	out := flag.String("out", "", "output .lean file")
+	jsonOut := flag.String("json", "", "also write the facts as JSON (read by harness/c10 to direct its probes)")
 	flag.Parse()
 	types := map[string]*typ{}
 	var order []string
@@ -844,8 +846,37 @@ func main() {
 	fmt.Fprintf(&b, "def all : List TypeFacts := [%s]\n\n", strings.Join(all, ", "))
 	fmt.Fprintf(&b, "def typeNames : List String := %s\n\nend Gen.Locks\n", leanStrs(order))
 
+	if *jsonOut != "" {
+		type jm struct {
+			Name      string   `json:"name"`
+			Exported  bool     `json:"exported"`
+			Acquires  bool     `json:"acquires"`
+			LockFirst bool     `json:"lockFirst"`
+			Irregular bool     `json:"irregular"`
+			CallsHeld []string `json:"callsHeld"`
+			CallsFree []string `json:"callsFree"`
+			AccFree   []string `json:"accFree"`
+		}
+		js := map[string][]jm{}
+		for _, n := range order {
+			for _, m := range types[n].methods {
+				var af []string
+				for _, a := range m.accFree {
+					af = append(af, a.path)
+				}
+				js[n] = append(js[n], jm{m.name, m.exported, m.acquires, m.lockFirst && m.deferUnlock, m.irregular, m.callsHeld, m.callsFree, af})
+			}
+		}
+		jb, _ := json.MarshalIndent(js, "", " ")
+		if err := os.WriteFile(*jsonOut, jb, 0o644); err != nil {
+			fmt.Fprintln(os.Stderr, err)
+			os.Exit(1)
+		}
+	}
 	if *out == "" {
-		fmt.Print(b.String())
+		if *jsonOut == "" {
+			fmt.Print(b.String())
+		}
 		return
 	}
 	if err := os.WriteFile(*out, []byte(b.String()), 0o644); err != nil {
